@@ -57,6 +57,13 @@ def documents(max_cues):
             lines += [str(i + 1), f"{a} --> {b}"] + TEXTS[i % 2] + [""]
             want.append((s_, e_, list(TEXTS[i % 2])))
         yield "\n".join(lines), want
+    # a cue whose TEXT quotes something that looks like the head of a cue (a number line, then a line with an arrow): text it is -
+    # only a blank line ends a cue
+    quote = ["The file on screen reads:", "7", "00:00:05,000 --> 00:00:06,000", "and nothing more."]
+    yield "\n".join(["1", "00:00:01,000 --> 00:00:02,000"] + quote + ["", "2", "00:00:08,000 --> 00:00:09,000", "next", ""]), \
+        [(S, 2 * S, list(quote)), (8 * S, 9 * S, ["next"])]
+    yield "\n".join(["1", "00:00:01,000 --> 00:00:02,000", "a --> b", "12", "", "2", "00:00:08,000 --> 00:00:09,000", "34", "x"]), \
+        [(S, 2 * S, ["a --> b", "12"]), (8 * S, 9 * S, ["34", "x"])]
 
 
 def run(ctx, report, rules, max_cues=None):
